@@ -51,6 +51,12 @@ CLAIMED["C04"] = dict(
    technique="Lean 4 inductive invariants over an unbounded-thread LTS + explicit counter-example theorem + schedule-controlled correspondence with the real crate",
    design="§6 C04")
 
+CLAIMED["C19"] = dict(
+   text="Lean 4 theorems about SigMask for every operation sequence over arbitrary signal sets: mask_exact (while the source lives exactly the configured signals are blocked and watched; nothing stays blocked after drop) by an inductive invariant, pending_kept (a pending instance of a signal that stays configured survives add/remove/set: finding F8's fix), dispatch_reports_pending_once (each pending configured signal reported exactly once, ascending, cleared), reports_only_configured, unconfigured_untouched, configured_becomes_pending, drop_unblocks. The real Signals source is run in a single-threaded process on every operation sequence of length <= 2 (quick) / 3 (thorough) plus random longer ones; thread mask (pthread_sigmask), handler counters and events are compared with the model after every call and judged by C19's clauses.",
+   note="Trusted: Lean kernel + standard axioms; POSIX standard-signal semantics as modelled (coalescing pending set, delivery on unblock, signalfd dequeues ascending) — observed on the real kernel by the correspondence; three signals (USR1, USR2, WINCH); single-threaded process; sender information fields of the event are not modelled.",
+   technique="Lean 4 inductive invariant + pointwise lemmas over a hand-written model + exhaustive small-scope correspondence on the real kernel",
+   design="§6 C19")
+
 PENDING_REASON = "not claimed yet in this revision: model and theorems are being built (see DESIGN.md §12 build order); no check is registered rather than registering an unsound one"
 
 def main():
